@@ -5,7 +5,7 @@ import (
 	"strings"
 	"time"
 
-	"github.com/rulego/streamsql/utils/simrt"
+	"verif.local/simrt"
 )
 
 // C19 — every emitted row is either processed exactly once or counted as dropped
